@@ -325,6 +325,8 @@ func c06stream(items []c06item) []byte {
 			b.Write(c06resp([]byte("select"), []byte(strconv.Itoa(it.db))))
 		case "c":
 			b.Write(c06resp(it.cmd, it.arg, []byte("1")))
+		case "k": // a command whose ONLY argument is its key
+			b.Write(c06resp(it.cmd, it.arg))
 		case "x":
 			b.Write(c06resp(it.cmd, it.arg))
 		}
@@ -363,7 +365,7 @@ func c06parseItems(s string) []c06item {
 		switch p[0] {
 		case "s":
 			out = append(out, c06item{kind: "s", db: atoi(p[1])})
-		case "c", "x":
+		case "c", "x", "k":
 			out = append(out, c06item{kind: p[0], cmd: unhx(p[1]), arg: unhx(p[2])})
 		default:
 			panic("bad item")
@@ -883,6 +885,7 @@ func (g *gen) c06db() int {
 	}
 }
 
+var c06keyOnly = []string{"incr", "DECR", "del", "Unlink", "persist", "lpop", "RPOP", "spop", "pfadd", "DEL"}
 var c06single = []string{"set", "SET", "Set", "incr", "lpush", "HSET", "expire", "append", "zadd", "sadd", "setex"}
 var c06bare = []string{"eval", "EVAL", "evalsha", "EvalSha", "script", "SCRIPT", "opinfo", "OPINFO", "OpInfo",
 	"multi", "exec", "flushall"}
@@ -945,7 +948,11 @@ func (g *gen) c06path(kind string) {
 			}
 			seen[id] = true
 			ents = append(ents, fmt.Sprintf("k:%d:%s:%d", d, hx(k), c06Slot(string(k))))
-			items = append(items, fmt.Sprintf("c:%s:%s", hx([]byte(c06single[g.r.Intn(len(c06single))])), hx(k)))
+			if g.r.Intn(4) == 0 {
+				items = append(items, fmt.Sprintf("k:%s:%s", hx([]byte(c06keyOnly[g.r.Intn(len(c06keyOnly))])), hx(k)))
+			} else {
+				items = append(items, fmt.Sprintf("c:%s:%s", hx([]byte(c06single[g.r.Intn(len(c06single))])), hx(k)))
+			}
 			if g.r.Intn(6) == 0 {
 				items = append(items, fmt.Sprintf("x:%s:%s", hx([]byte(c06bare[g.r.Intn(len(c06bare))])), hx([]byte(g.c06word(4)))))
 			}
@@ -989,7 +996,11 @@ func (g *gen) c06path(kind string) {
 			items = append(items, fmt.Sprintf("s:%d", d))
 			for n := g.r.Intn(3); n > 0; n-- {
 				k := keys[g.r.Intn(len(keys))]
-				items = append(items, fmt.Sprintf("c:%s:%s", hx([]byte(c06single[g.r.Intn(len(c06single))])), hx(k)))
+				if g.r.Intn(4) == 0 {
+					items = append(items, fmt.Sprintf("k:%s:%s", hx([]byte(c06keyOnly[g.r.Intn(len(c06keyOnly))])), hx(k)))
+				} else {
+					items = append(items, fmt.Sprintf("c:%s:%s", hx([]byte(c06single[g.r.Intn(len(c06single))])), hx(k)))
+				}
 			}
 		}
 	}
